@@ -371,7 +371,7 @@ def run(chk):
                 write_mp_replay(d, chk, ncases, "case %d: result %s, expected %s" % (i, res_of[i][:20], want[:20]))
                 chk.violation("mappar-result", "MapParallel result differs from map f xs (case %d)" % i, d)
         stats["mappar_int_cases"] = len(ids)
-        if tie_bad and not found_concrete:
+        if tie_bad and not (found_concrete and chk.has_new_concrete()):
             d = chk.replay_dir("tie-model")
             open(os.path.join(d, "replay.txt"), "w").write(
                 "the extracted model (Model/MapPar.v) does not return map f xs / the proved step count:\n" + "\n".join(tie_bad[:10]) +
@@ -566,7 +566,7 @@ def run(chk):
 
     if known_symptoms:
         found_concrete = True
-    if skel_diff and not found_concrete:
+    if skel_diff and not (found_concrete and chk.has_new_concrete()):
         d = chk.replay_dir("sync-skeleton")
         with open(os.path.join(d, "replay.txt"), "w") as f:
             f.write("T-gen tie broken: the synchronisation skeleton of the functions Model/MapPar.v and Model/Conc.v were written from has changed;\n"
